@@ -872,7 +872,12 @@ exchange ends on each failure — including the negative length rejected since C
 def connSaslAuthenticateModelRow (sc : List String) : List String :=
   let neg := "negotiate:saslHandshake"          -- the HANDSHAKE key: `negotiateVersion(saslHandshake, v0, v1)`
   if cflag sc "negotiateFailed" then [neg, "return:error"]
-  else if !isRawWire (authWire (if cflag sc "handshakeWasV1" then 1 else 0) 0 []) then [neg, "framedExchange", "return:data,err"]
+  else if !isRawWire (authWire (if cflag sc "handshakeWasV1" then 1 else 0) 0 []) then
+    -- the framed answer: a failed exchange is returned as it is; an error code in a well-formed answer is the model's
+    -- `reply err` with err ≠ 0 (`failWith (.kafka err)`)
+    let kafka := !cflag sc "framedExchangeFailed" && cflag sc "errorCodeInAnswer" &&
+      (react { path := .dialer, sasl := true } (.awaitAuth 1 0) (.reply 58 [] false)).map (·.err) == some (some (.kafka 58))
+    [neg, "framedExchange"] ++ (if kafka then ["kafkaError"] else []) ++ ["return:data,err"]
   else
     [neg, "rawLength", "rawWrite"] ++
     (if cflag sc "writeFailed" then ["return:error"]
@@ -900,6 +905,7 @@ def wrapperModelRow (ph : Phase) (pre : List String) (sc : List String) : List S
     | some a =>
       pre ++ ["exchange"] ++ (match a.err with | some (.kafka _) => ["kafkaError"] | _ => []) ++ ["return"]
 
+set_option maxRecDepth 32768 in
 theorem wrapper_flows_are_the_model :
     Gen.MuxFacts.connSaslHandshakeFlow.all
       (fun (sc, eff) => wrapperModelRow (.awaitHandshake 1 0) ["negotiate:saslHandshake"] sc == eff) = true ∧
@@ -907,6 +913,7 @@ theorem wrapper_flows_are_the_model :
     Gen.MuxFacts.saslAuthenticateRoundTripFlow.all (fun (sc, eff) => wrapperModelRow (.awaitAuth 1 0) [] sc == eff) = true := by
   decide
 
+set_option maxRecDepth 32768 in
 theorem framing_flows_are_the_model :
     Gen.MuxFacts.connSaslAuthenticateFlow.all (fun (sc, eff) => connSaslAuthenticateModelRow sc == eff) = true ∧
     Gen.MuxFacts.protocolConnRoundTripFlow.all (fun (sc, eff) => protocolConnRoundTripModelRow sc == eff) = true := by
